@@ -1,0 +1,197 @@
+//! Verification seams. Only compiled with `--cfg tyberiusprime_pypipegraph2_verif`.
+//!
+//! Nothing in here changes the behaviour of the engine. It provides
+//!  * a seeded `BuildHasher` (so hash iteration order is a function of a seed
+//!    chosen by a simulator instead of process-random `RandomState`),
+//!  * a `PPGEvaluatorStrategy` whose three decisions are pluggable closures
+//!    (the trait mentions types of the private `engine` module, so it can only
+//!    be implemented inside this crate),
+//!  * a thread-local log of every job state transition,
+//!  * plain-data snapshot types filled in by `PPGEvaluator::verif_snapshot`.
+
+use std::cell::{Cell, RefCell};
+use std::hash::{BuildHasher, Hasher};
+
+thread_local! {
+    static HASH_SEED: Cell<u64> = Cell::new(0);
+    static TRANSITIONS: RefCell<Vec<Transition>> = RefCell::new(Vec::new());
+    static LOG_TRANSITIONS: Cell<bool> = Cell::new(false);
+}
+
+/// Set the seed used by every `SimState` created on this thread from now on.
+pub fn set_hash_seed(seed: u64) {
+    HASH_SEED.with(|s| s.set(seed));
+}
+
+#[derive(Clone)]
+pub struct SimState {
+    seed: u64,
+}
+
+impl Default for SimState {
+    fn default() -> Self {
+        SimState {
+            seed: HASH_SEED.with(|s| s.get()),
+        }
+    }
+}
+
+impl BuildHasher for SimState {
+    type Hasher = std::collections::hash_map::DefaultHasher;
+    fn build_hasher(&self) -> Self::Hasher {
+        // DefaultHasher::new() is SipHash with fixed (zero) keys: deterministic.
+        let mut h = std::collections::hash_map::DefaultHasher::new();
+        h.write_u64(self.seed);
+        h
+    }
+}
+
+pub type HashMap<K, V> = std::collections::HashMap<K, V, SimState>;
+pub type HashSet<K> = std::collections::HashSet<K, SimState>;
+
+/// `HashMap::new()` / `HashSet::new()` are inherent only for `RandomState`;
+/// this trait supplies them for the seeded aliases so that call sites stay as they are.
+pub trait SeamNew {
+    fn new() -> Self;
+}
+impl<K, V> SeamNew for HashMap<K, V> {
+    fn new() -> Self {
+        std::collections::HashMap::with_hasher(SimState::default())
+    }
+}
+impl<K> SeamNew for HashSet<K> {
+    fn new() -> Self {
+        std::collections::HashSet::with_hasher(SimState::default())
+    }
+}
+
+/// One job state transition: (job id, state before, state after), states as
+/// `VState` codes.
+#[derive(Clone, Debug, PartialEq, Eq)]
+pub struct Transition {
+    pub job_id: String,
+    pub from: VState,
+    pub to: VState,
+}
+
+/// Flat copy of `engine::JobState` (which lives in a private module).
+#[derive(Copy, Clone, Debug, PartialEq, Eq, Hash, PartialOrd, Ord)]
+pub struct VState {
+    /// 0 = Always, 1 = Output, 2 = Ephemeral
+    pub kind: u8,
+    /// see `engine::verif_state_code`
+    pub code: u8,
+    /// validation status carried by the state, 0 = none/Unknown, 1 = Validated, 2 = Invalidated
+    pub vs: u8,
+}
+
+pub const ST_NOT_READY: u8 = 0; // Always::Undetermined, NotReady(_)
+pub const ST_DELAYED: u8 = 1; // Ephemeral::ReadyButDelayed
+pub const ST_READY: u8 = 2; // ReadyToRun
+pub const ST_RUNNING: u8 = 3;
+pub const ST_SUCCESS: u8 = 4; // FinishedSuccess / FinishedSuccessNotReadyForCleanup
+pub const ST_SUCCESS_READY_CLEANUP: u8 = 5;
+pub const ST_SUCCESS_CLEANED: u8 = 6;
+pub const ST_SUCCESS_SKIP_CLEANUP: u8 = 7;
+pub const ST_FAILURE: u8 = 8;
+pub const ST_UPSTREAM_FAILURE: u8 = 9;
+pub const ST_SKIPPED: u8 = 10;
+pub const ST_ABORTED: u8 = 11;
+
+pub fn enable_transition_log(on: bool) {
+    LOG_TRANSITIONS.with(|l| l.set(on));
+    TRANSITIONS.with(|t| t.borrow_mut().clear());
+}
+
+pub fn log_transition(job_id: &str, from: VState, to: VState) {
+    if LOG_TRANSITIONS.with(|l| l.get()) {
+        TRANSITIONS.with(|t| {
+            t.borrow_mut().push(Transition {
+                job_id: job_id.to_string(),
+                from,
+                to,
+            })
+        });
+    }
+}
+
+pub fn drain_transitions() -> Vec<Transition> {
+    TRANSITIONS.with(|t| std::mem::take(&mut *t.borrow_mut()))
+}
+
+pub fn pending_transitions() -> usize {
+    TRANSITIONS.with(|t| t.borrow().len())
+}
+
+#[derive(Clone, Debug, PartialEq, Eq)]
+pub struct VJob {
+    pub job_id: String,
+    pub state: VState,
+    pub history_output: Option<String>,
+    pub in_dag: bool,
+}
+
+#[derive(Clone, Debug, PartialEq, Eq)]
+pub struct VEdge {
+    pub upstream: String,
+    pub downstream: String,
+    /// 0 = Unknown, 1 = Yes, 2 = No
+    pub required: u8,
+    pub invalidated: u8,
+}
+
+#[derive(Clone, Debug, PartialEq, Eq)]
+pub struct VSnapshot {
+    pub jobs: Vec<VJob>,
+    pub edges: Vec<VEdge>,
+    pub pending_signals: usize,
+    /// 0 = NotStarted, 1 = Running, 2 = Finished
+    pub start_status: u8,
+    pub ready_to_run: Vec<String>,
+    pub ready_for_cleanup: Vec<String>,
+}
+
+/// A strategy whose decisions are supplied by the simulator.
+pub struct StrategyForVerif {
+    pub present: Box<dyn Fn(&str) -> bool>,
+    /// (upstream id, downstream id, last recorded value, current value) -> altered?
+    pub altered: Box<dyn Fn(&str, &str, &str, &str) -> bool>,
+    /// (job id, sorted ids of its direct upstreams in the dag) -> input name list
+    pub input_list: Box<dyn Fn(&str, &[&str]) -> String>,
+}
+
+impl crate::PPGEvaluatorStrategy for StrategyForVerif {
+    fn output_already_present(&self, query: &str) -> bool {
+        (self.present)(query)
+    }
+
+    fn is_history_altered(
+        &self,
+        job_id_upstream: &str,
+        job_id_downstream: &str,
+        last_recorded_value: &str,
+        current_value: &str,
+    ) -> bool {
+        (self.altered)(
+            job_id_upstream,
+            job_id_downstream,
+            last_recorded_value,
+            current_value,
+        )
+    }
+
+    fn get_input_list(
+        &self,
+        node_idx: crate::engine::NodeIndex,
+        dag: &crate::engine::GraphType,
+        jobs: &[crate::engine::NodeInfo],
+    ) -> String {
+        let mut names = Vec::new();
+        let upstreams = dag.neighbors_directed(node_idx, petgraph::Direction::Incoming);
+        for upstream_idx in upstreams {
+            names.push(jobs[upstream_idx].get_job_id());
+        }
+        names.sort();
+        (self.input_list)(jobs[node_idx].get_job_id(), &names)
+    }
+}
